@@ -2,11 +2,13 @@
 #![allow(clippy::too_many_arguments, clippy::type_complexity)]
 
 mod cli;
+mod locks;
 mod model;
 mod node;
 mod rng;
 mod t1;
 mod t3;
+mod t5;
 mod t8;
 mod trace;
 
